@@ -22,7 +22,7 @@ ASSUMPTIONS = ["gateway models in gateways/sim.py (reports in bus order, one out
                "daliserver: status 0 none, 1 answer, 255 garbled; ATX hat: 'N' none, 'Jhh' answer"]
 EXHAUSTIVE = {"quick": False, "thorough": False}
 REQUIRED_ANCHORS = {"all": ["sends_checked", "silent_outcomes", "value_outcomes", "error_outcomes", "multi_caller_runs",
-                            "daliserver_checked", "atx_checked", "dfs_runs", "integration_runs", "drivers_tridonic", "drivers_hasseb", "drivers_luba", "drivers_sci"]}
+                            "daliserver_checked", "atx_checked", "dfs_runs", "integration_runs", "abandon_runs", "queries_abandoned", "drivers_tridonic", "drivers_hasseb", "drivers_luba", "drivers_sci"]}
 SPURIOUS_DRIVERS = ("tridonic", "hasseb")
 SHARD_TIMEOUT = {"quick": 600, "thorough": 3000}
 
@@ -35,6 +35,8 @@ def plan(tier, seed):
         for p in range(parts):
             sh.append({"kind": "async", "driver": d, "part": p, "n": n // parts})
     sh.append({"kind": "sync"})
+    for d in ("tridonic", "hasseb"):
+        sh.append({"kind": "abandon", "driver": d, "n": 150 if tier == "quick" else 3000})
     # the library's own sequences through each driver against the unit models, compared with a direct run (props/integ.py)
     for d in simlib.DRIVERS:
         for p in range(1 if tier == "quick" else 6):
@@ -257,6 +259,87 @@ def run_async_case(driver, seed, part, i, res, forced=None):
         sim.close()
 
 
+def run_abandon_case(driver, seed, i, res):
+    """A caller gives up on a query (wait_for timing out) and its answer arrives when nobody is waiting; after a pause the
+    next commands must each get their own answer (HID drivers; the serial drivers' behaviour after a cancellation is
+    C17's subject and has a recorded finding)."""
+    from dali import frame as F
+    r = rng(seed, "C16", "abandon", driver, i)
+    qa = simlib.make_command(r, "query", 3, i % 16, driver)
+    later = [simlib.make_command(r, r.choice(["query", "query", "plain", "twice"]), 0, k, driver) for k in range(r.randint(1, 4))]
+    vals = {}
+
+    def answer(width, value, idx, dt):
+        from gateways.sim import is_query
+        if not is_query(width, value, dt):
+            return None
+        if (width, value) not in vals:
+            c = r.random()
+            vals[(width, value)] = None if c < 0.25 else (("ok", r.choice([0, 255, r.getrandbits(8)])) if c < 0.85 else ("collision", 9))
+        return vals[(width, value)]
+    vals[(16, qa.frame.as_integer)] = ("ok", 0x5A)         # the abandoned query does get an answer - late
+    picker = simlib.Picker(r)
+    sim = simlib.Sim(driver, picker, answer=answer)
+    got = {}
+    give_up = r.choice([0.001, 0.005, 0.012, 0.02, 0.028, 0.036])
+    pause = r.choice([0.15, 0.3, 0.6])
+
+    async def main(sim):
+        await sim.connect()
+        try:
+            await asyncio.wait_for(sim.driver.send(qa), give_up)
+            got["abandoned"] = "answered-in-time"
+        except asyncio.TimeoutError:
+            got["abandoned"] = "gave-up"
+        except Exception as e:
+            got["abandoned"] = repr(e)
+        await asyncio.sleep(pause)
+        for k, c in enumerate(later):
+            try:
+                got[k] = ("ok", await sim.driver.send(c))
+            except Exception as e:
+                got[k] = ("exc", e)
+        await asyncio.sleep(0.5)
+        return True
+    out, stalled = sim.run(main)
+    res.evaluations += 1
+    res.hit("abandon_runs")
+    wit = {"driver": driver, "seed": seed, "case": i, "abandon": True, "gave_up_after": give_up, "pause": pause,
+           "commands": [str(qa)] + [str(c) for c in later], "picks": picker.log[:30]}
+    try:
+        if simlib.detached(out):
+            res.inconclusive.append("harness detached: " + str(out))
+            return
+        if stalled or out is not True:
+            res.violation(f"C16/{driver}/abandon/hang-or-crash", f"ended with {'a stall' if stalled else repr(out)}", wit)
+            return
+        if got.get("abandoned") == "gave-up":
+            res.hit("queries_abandoned")
+        for k, c in enumerate(later):
+            st, val = got[k]
+            if st == "exc":
+                res.violation(f"C16/{driver}/abandon/send-raised/{type(val).__name__}",
+                              f"after an abandoned query, send({c}) raised {type(val).__name__}: {val}", {**wit, "tb": short_tb(val)})
+                return
+            if c.response is None:
+                if val is not None:
+                    res.violation(f"C16/{driver}/abandon/answer-for-non-query", f"send({c}) returned {val!r}", wit)
+                continue
+            ans = vals.get((len(c.frame), c.frame.as_integer))
+            kind, v = expected_raw(driver, ans)
+            raw = getattr(val, "raw_value", "missing")
+            ok = type(val) is c.response and ((kind == "none" and raw is None) or
+                                              (kind == "value" and isinstance(raw, F.BackwardFrame) and not raw.error and raw.as_integer == v) or
+                                              (kind == "error" and isinstance(raw, F.BackwardFrame) and raw.error))
+            if not ok:
+                res.violation(f"C16/{driver}/abandon/wrong-answer", f"a query was abandoned (its answer 0x5a arrived when nobody waited); "
+                              f"{pause}s later send({c}): the bus gave {ans}, the caller received "
+                              f"{None if raw is None else ('error' if raw.error else raw.as_integer)!r}", wit)
+                return
+    finally:
+        sim.close()
+
+
 def write_time(sim, cmd, t0):
     """Virtual time at which the driver handed this command's frame to the gateway (first write at or after t0)."""
     fb = bytes(cmd.frame.pack)
@@ -285,6 +368,7 @@ class FakeSocketModule:
         self.now = 0.0
         self.timeouts = 0
         self.socks = []
+        self.cut_fn = None
 
     def __getattr__(self, name):
         # constants and exception classes (socket.timeout, socket.error, AF_INET, ...) are the real module's
@@ -333,6 +417,13 @@ class FakeSocket:
                 raise self.mod._real.timeout("timed out")
             self.mod.now = at
         self.pending.pop(0)
+        cut = self.mod.cut_fn(data) if self.mod.cut_fn else None
+        if cut == "closed":
+            return b""                         # the server closed the connection instead of replying
+        if cut:
+            self.pending.insert(0, (self.mod.now, data[cut:]))
+            self.mod.cut_fn = None             # one split per session
+            return data[:cut]                  # a reply split over two TCP segments
         return data
 
     def close(self):
@@ -367,6 +458,11 @@ def run_daliserver(seed, res):
             delays = {k: (r.choice([0.0, 0.02, 0.3, 1.1, 2.6, 7.0]) if slow else r.choice([0.0, 0.02])) for k in replies}
             mod = FakeSocketModule(lambda data: replies.get(data, bytes([2, 0, 0, 0])), lambda data: delays.get(data, 0.0))
             D.socket = mod
+            transport = None
+            if not multi and session % 5 == 4:
+                # the reply never arrives whole: connection closed, or split over two segments
+                transport = r.choice(["closed", 1, 2, 3])
+                mod.cut_fn = lambda data, transport=transport: transport
             outs = []
             try:
                 with D.DaliServer(multiple_frames_per_connection=multi) as ds:
@@ -382,7 +478,23 @@ def run_daliserver(seed, res):
                 res.distinct += 1
                 res.hit("daliserver_checked")
                 wit = {"driver": "daliserver", "command": str(cmd), "outcome": oc, "value": v, "one_connection": multi,
-                       "session": [(str(c), o, vv) for c, o, vv in cmds]}
+                       "session": [(str(c), o, vv) for c, o, vv in cmds], "transport": transport}
+                if transport is not None:
+                    res.hit("daliserver_transport_faults")
+                    if cmd.response is not None and out[0] == "ok":
+                        # nothing (or half a reply) came back: saying so is fine, so is reading the rest; an answer the
+                        # server never gave is not
+                        val = out[1]
+                        raw = getattr(val, "raw_value", None)
+                        true_ok = transport != "closed" and type(val) is cmd.response and (
+                            (oc == "none" and raw is None) or (oc == "value" and raw is not None and not raw.error and raw.as_integer == v)
+                            or (oc == "error" and raw is not None and raw.error))
+                        if not true_ok:
+                            res.violation("C16/daliserver/answer-invented",
+                                          f"send({cmd}): the server's reply was {'missing (connection closed)' if transport == 'closed' else f'cut after {transport} bytes'}"
+                                          f" but the caller received {None if raw is None else ('framing error' if raw.error else raw.as_integer)!r} "
+                                          f"as if the server had reported it", wit)
+                    continue
                 if cmd.response is None:
                     if out[0] == "exc" and mod.timeouts and isinstance(out[1], (TimeoutError, OSError, CommunicationError)):
                         res.observe("daliserver-gave-up-on-slow-reply", f"{type(out[1]).__name__} after {mod.timeouts} timeouts")
@@ -413,7 +525,7 @@ def run_daliserver(seed, res):
                                   f"{None if raw is None else ('error' if raw.error else raw.as_integer)!r}", wit)
             if slow:
                 res.hit("daliserver_slow_sessions")
-            if mod.pending_total() and not mod.timeouts:
+            if mod.pending_total() and not mod.timeouts and transport is None:
                 res.violation("C16/daliserver/unread-replies", f"{mod.pending_total()} replies of the server were left unread in the session",
                               {"session": [(str(c), o, vv) for c, o, vv in cmds], "one_connection": multi})
             if mod.opened != mod.closed:
@@ -520,7 +632,9 @@ def run_shard(desc, tier, seed):
     if "replay" in desc:
         for w in desc["replay"]["witnesses"]:
             x = w["witness"]
-            if "sequences" in x:
+            if x.get("abandon"):
+                run_abandon_case(x["driver"], x["seed"], x["case"], res)
+            elif "sequences" in x:
                 from props import integ
                 integ.run_case(x["driver"], x["seed"], x["case"], res, "C16", concurrent=x.get("concurrent", False))
             elif "case" in x:
@@ -530,7 +644,14 @@ def run_shard(desc, tier, seed):
                 run_daliserver(seed, res)
                 run_atx(seed, res)
         return res
-    if desc["kind"] == "integration":
+    if desc["kind"] == "abandon":
+        for i in range(desc["n"]):
+            try:
+                run_abandon_case(desc["driver"], seed, i, res)
+            except Exception as e:
+                res.inconclusive.append("harness error (abandon): " + short_tb(e))
+                break
+    elif desc["kind"] == "integration":
         from props import integ
         for i in range(desc["n"]):
             try:
